@@ -89,7 +89,7 @@ PROPS = {
         'explanation': 'Verus: mov/store_temporary/restore_temporary contracts (proved, all placements). Bounded native contract check: all maps m,n<=5 (thorough) / <=4 (quick) x kinds x offsets x 3 backends + random larger maps; never counted as proved.',
     },
     'C13': {
-        'units': ['x86_routine', 'a64_routine'],
+        'units': ['x86_routine', 'a64_routine', 'x86_code', 'a64_code'],
         'aux': ['native_prints'],
         'level': 'other',
         'claim': 'Prologue, epilogue and argument shuffle of the x86-64 routine are proved by Verus over the ISA model (callee-saved registers and rsp restored, result register untouched by the epilogue, stack-pointer alignment arithmetic, heap/free initialisation). The save/align/call/restore sequence around the print runtime and the whole routine skeleton (both backends) are checked by a bounded native contract check for 1..20 live variables x kind assignments x argument positions and 0..5 / 0..7 entry arguments, on machine models whose call destroys all caller-saved state and faults on a misaligned stack pointer.',
